@@ -1905,6 +1905,27 @@ func init() {
 		fr.e.mustValid(v, "reflect.Value.NumMethod")
 		return len(exportedMethods(fr.e, rvType(v)))
 	})
+	R("(reflect.Value).FieldByIndexErr", func(fr *frame, a []value) value {
+		e := fr.e
+		v := argRV(a[0])
+		e.mustKind(v, "reflect.Value.FieldByIndexErr", reflect.Struct)
+		var idx []int
+		for _, x := range a[1].([]value) {
+			idx = append(idx, int(e.concreteInt(x, 0, 1<<20)))
+		}
+		// the error case of the real function: a nil pointer to an embedded struct on the way
+		cur := v
+		for n, i := range idx {
+			if n > 0 && rvKind(cur) == reflect.Ptr && reflectKind(deref(rvType(cur))) == reflect.Struct {
+				if payloadIsNil(e.rvLoad(cur)) {
+					return tuple{rv(e.zeroRV()), e.newError("reflect: indirection through nil pointer to embedded struct field " + typeString(deref(rvType(cur))))}
+				}
+				cur = e.rvElem(cur)
+			}
+			cur = e.rvField(cur, i)
+		}
+		return tuple{rv(cur), iface{}}
+	})
 	R("(reflect.Value).MethodByName", func(fr *frame, a []value) value {
 		name, ok := a[1].(string)
 		if !ok {
